@@ -30,7 +30,30 @@ import (
 // branch conditions. Nothing is executed: the functions are interpreted over
 // the abstract domain, for all m at once.
 
-var affEps = big.NewRat(1, 1000000)
+// fpSlack bounds the rounding error of one correctly rounded float64 operation
+// whose result lies in v's range: one unit in the last place, 2^-52 relative.
+func fpSlack(v aval, ctx actx) *big.Rat {
+	m := new(big.Rat).Abs(v.minVal(ctx))
+	if h := new(big.Rat).Abs(v.maxVal(ctx)); h.Cmp(m) > 0 {
+		m = h
+	}
+	m.Add(m, rat(1))
+	return m.Mul(m, new(big.Rat).SetFrac(big.NewInt(1), new(big.Int).Lsh(big.NewInt(1), 52)))
+}
+
+// widen adds the rounding slack of a float operation unless the result is provably exact:
+// every admissible value is an integer below 2^53 computed from exact operands.
+func fpRound(v aval, ctx actx, operandsExact bool) aval {
+	if operandsExact && v.lo.Cmp(v.hi) == 0 && isIntRat(v.lo) && isIntRat(new(big.Rat).Mul(v.a, ctx.q)) {
+		return v
+	}
+	sl := fpSlack(v, ctx)
+	v.lo = new(big.Rat).Sub(v.lo, sl)
+	v.hi = new(big.Rat).Add(v.hi, sl)
+	return v
+}
+
+func (v aval) exact() bool { return v.bad == "" && v.lo.Cmp(v.hi) == 0 }
 
 type aval struct {
 	a, lo, hi    *big.Rat
@@ -282,11 +305,22 @@ func (ai *affInterp) binop(x *ssa.BinOp, env map[ssa.Value]aval, ctx actx) aval 
 	if r.bad != "" {
 		return r
 	}
+	isF := isFloatType(x.Type())
+	opsExact := l.exact() && r.exact()
 	switch x.Op {
 	case token.ADD:
-		return aval{a: new(big.Rat).Add(l.a, r.a), lo: new(big.Rat).Add(l.lo, r.lo), hi: new(big.Rat).Add(l.hi, r.hi), mono: l.mono && r.mono}
+		out := aval{a: new(big.Rat).Add(l.a, r.a), lo: new(big.Rat).Add(l.lo, r.lo), hi: new(big.Rat).Add(l.hi, r.hi), mono: l.mono && r.mono}
+		if isF {
+			// x + c with a dyadic constant and a result far below 2^53 is exact only if x's fraction fits; be conservative
+			out = fpRound(out, ctx, opsExact)
+		}
+		return out
 	case token.SUB:
-		return aval{a: new(big.Rat).Sub(l.a, r.a), lo: new(big.Rat).Sub(l.lo, r.hi), hi: new(big.Rat).Sub(l.hi, r.lo), mono: l.mono && r.isConst()}
+		out := aval{a: new(big.Rat).Sub(l.a, r.a), lo: new(big.Rat).Sub(l.lo, r.hi), hi: new(big.Rat).Sub(l.hi, r.lo), mono: l.mono && r.isConst()}
+		if isF {
+			out = fpRound(out, ctx, opsExact)
+		}
+		return out
 	case token.MUL:
 		c, v := r, l
 		if !c.isConst() {
@@ -302,6 +336,9 @@ func (ai *affInterp) binop(x *ssa.BinOp, env map[ssa.Value]aval, ctx actx) aval 
 		} else {
 			out.lo, out.hi = new(big.Rat).Mul(v.hi, k), new(big.Rat).Mul(v.lo, k)
 		}
+		if isF {
+			out = fpRound(out, ctx, opsExact)
+		}
 		return out
 	case token.QUO:
 		if !r.isConst() || r.lo.Sign() <= 0 {
@@ -315,11 +352,11 @@ func (ai *affInterp) binop(x *ssa.BinOp, env map[ssa.Value]aval, ctx actx) aval 
 			// IEEE division is correctly rounded: it is exact when the divisor is a power of two, or when the true
 			// quotient is an integer for every admissible m (representable below 2^53, checked at the int->float conversion)
 			pow2 := d.IsInt() && new(big.Int).And(d.Num(), new(big.Int).Sub(d.Num(), big.NewInt(1))).Sign() == 0
-			exactInt := lo.Cmp(hi) == 0 && isIntRat(lo) && isIntRat(new(big.Rat).Mul(na, ctx.q))
-			if pow2 || exactInt {
-				return aval{a: na, lo: lo, hi: hi, mono: l.mono}
+			out := aval{a: na, lo: lo, hi: hi, mono: l.mono}
+			if pow2 {
+				return out // scaling by a power of two is exact
 			}
-			return aval{a: na, lo: lo.Sub(lo, affEps), hi: hi.Add(hi, affEps), mono: l.mono}
+			return fpRound(out, ctx, opsExact)
 		}
 		if !isIntType(x.Type()) {
 			return abad("division of unsupported type")
